@@ -205,6 +205,17 @@ class RealWorld:
         self.items.append("count " + enc(ft))
         self._snap("ok:%d" % n)
 
+    def abandon(self):
+        """close the open FeatureDB's connection WITHOUT commit (whatever a failed call left pending on it is rolled
+        back by sqlite); no protocol item: the next `connect` shows what the file holds"""
+        if self.db is not None:
+            try:
+                self.db.conn.close()
+            except Exception:
+                pass
+        self.db = None
+        gc.collect()
+
     def command(self):
         return "world " + " ; ".join(self.items)
 
